@@ -15,7 +15,7 @@ class C01(Prop):
     pid = "C01"
     prop_file = "Props/C01.v"
     module = "Props.C01"
-    gen_deps = ["Table", "StripFn"]
+    gen_deps = ["Table", "StripFn", "StreamFn"]
     harness = ("h-core", "hcore")
     nontrivial_rule = ("cases: every byte string up to length L over the 28-symbol class alphabet (exhaustive; L=3 quick, 4 thorough) through strip_bytes "
                        "(pieces with offsets, and concatenation vs Spec/Strip), its valid-UTF-8 subset through strip_str; grammar streams (escape sequences, "
